@@ -41,6 +41,8 @@ func init() {
 		}
 		r := lib.NewRand(seed)
 		rej, insts, runinsts, errs := 0, 0, 0, 0
+		hist := make([]int, 64)
+		exec := make([]int, 64)
 		for i := 0; i < n; i++ {
 			src := genProgram(r.Fork(), 25+r.Intn(50))
 			p, e, pan := compileSrc(src, "gen")
@@ -62,6 +64,17 @@ func init() {
 			tr, res := runTraced(p, d, 30000, nil)
 			_, _, nt := tr.grouped()
 			insts += d.totalInsts()
+			for _, q := range flatten(d) {
+				tags, _ := view(q).scan()
+				for pc, w := range q.Code {
+					if tags[pc] == 0 {
+						hist[dOp(w)]++
+					}
+				}
+			}
+			for k := range tr.trans {
+				exec[dOp(tr.flat[k[0]].Code[k[1]])]++
+			}
 			runinsts += res.Insts
 			if res.Err != "" {
 				errs++
@@ -70,6 +83,10 @@ func init() {
 				fmt.Printf("%d: protos=%d insts=%d wf=%v %v | run insts=%d over=%v trans=%d err=%q pan=%q\n", i, len(flatten(d)), d.totalInsts(), ok, why, res.Insts, res.Over, nt, trunc(res.Err, 80), res.Panicked)
 			}
 		}
+		for op := 0; op <= opNOP; op++ {
+			fmt.Printf("%s:%d/%d ", props[op].name, hist[op], exec[op])
+		}
+		fmt.Println()
 		fmt.Println("rejected", rej, "of", n, "avg insts", insts/max(n-rej, 1), "avg run insts", runinsts/max(n-rej, 1), "runs with error", errs)
 	}
 }
